@@ -496,6 +496,7 @@ def run(ck, replay_sets=None):
     stream_config_cli(ck, ask, pool, scratch, by_type)
     stream_vx(ck, ask, pool, scratch, by_type)
     stream_hab_items(ck, ask, pool, scratch, by_type)
+    stream_canonical(ck, ask, pool, scratch)
     stream_cli(ck, pool, scratch, by_type)
     ask.flush()
     logging.disable(logging.NOTSET)
@@ -657,6 +658,117 @@ def stream_hab_items(ck, ask, pool, scratch, by_type):
             real = cres(lambda: SrkItemEcc(ksz, x, y, flag).export())
             s.note(("obj", ksz, flag), cls="odd-key-size")
             ask(f"habecc_export {ksz} {x} {y} {flag}", lambda a, real=real, ksz=ksz, x=x, y=y, flag=flag: s.compare({"key_size": ksz, "x": str(x), "y": str(y), "flag": flag}, real, a, "model habEccExport differs on an SrkItemEcc object with an arbitrary key size"))
+    return s
+
+
+# ------------------------------------------------------------------------------------------------ stream: acceptance of arbitrary bytes (phase 3)
+def stream_canonical(ck, ask, pool, scratch):
+    """what an ACCEPTING parse says about its input: re-export = canonical form of the input (theorems certblock_v1_parse_canonical,
+    isk_lite_parse_canonical and their refuting examples)"""
+    import random
+    from spsdk.crypto.signature_provider import PlainFileSP
+    from spsdk.utils.crypto.cert_blocks import CertBlockV1, CertBlockVx, IskCertificateLite
+    rng = random.Random(f"C03/parse_canonical/{ck.seed}")
+    s = ck.stream("parse_canonical", "certificate block v1 and lite ISK certificate: exported objects with mutated header words (version, flags, build number, "
+                  "image length, cert_table_length, certificate count 0), non-zero padding, trailing bytes, other magic / version / constraints / signature "
+                  "bytes, truncation.  Whenever the REAL parser accepts the bytes: count = 0 -> export refuses; otherwise export = header with the "
+                  "recomputed table length | entries read | RKH table | zero padding to 16 (= the first 32 + cert_table_length + 128 input bytes + padding "
+                  "when the length field was consistent), and parsing that canonical form gives the same block; lite: export = magic | version | input[4:136]. "
+                  "The model's parse and export are compared on the same bytes")
+    r2 = pool[("rsa", 2048)]
+
+    def dump1(p):
+        return (f"{p.header.version.split('.')[0]} {p.header.version.split('.')[1]} {p.header.flags} {p.header.build_number} {p.header.image_length} "
+                f"{p.alignment} {','.join(c.export().hex() for c in p.certificates) or '-'} {','.join(h.hex() for h in p.rkh) or '-'}")
+
+    u32 = lambda b, o: struct.unpack_from("<I", b, o)[0]
+    for _ in range(ck.budget(10, 120)):
+        keys = rng.sample(r2, min(rng.choice([1, 2, 3, 4]), len(r2)))
+        used = rng.randrange(len(keys))
+        cbr = pyres(real_cb1, keys, used, scratch, rng.random() < 0.4)
+        ex = pyres(cbr[1].export) if cbr[0] == "ok" else cbr
+        if ex[0] != "ok":
+            s.expect(False, kdesc(keys, used=used), "CertBlockV1 cannot be built / exported", ex)
+            continue
+        data = ex[1]
+        L0 = u32(data, 28)
+        n0 = 32 + L0 + 128
+        hdr_rand = data[:4] + struct.pack("<HHIIII", rng.choice([1, 2, 65535]), rng.choice([0, 1, 65535]), 32, rng.getrandbits(32), rng.getrandbits(32),
+                                          rng.choice([0, 1, rng.getrandbits(32)])) + data[24:]
+        junk = bytes(rng.getrandbits(8) | 1 for _ in range(rng.randrange(1, 40)))
+        muts = [("fields", hdr_rand), ("trail", data + junk), ("padding", data[:n0] + junk),
+                ("ctl-plus", data[:28] + struct.pack("<I", L0 + 16) + data[32:] + bytes(16)),
+                ("ctl-minus", data[:28] + struct.pack("<I", max(L0 - rng.randrange(1, 9), 0)) + data[32:]),
+                ("count0", data[:24] + struct.pack("<II", 0, 0) + data[32 + L0:n0] + (junk if rng.random() < 0.5 else b"")),
+                ("count0-ctl", data[:24] + struct.pack("<II", 0, L0) + data[32 + L0:n0] + bytes(L0))]
+        for name, d in muts:
+            pr = pyres(CertBlockV1.parse, d)
+            s.note(("v1", tuple(k.id for k in keys), used, name), cls=f"v1-{name}-{'accepted' if pr[0] == 'ok' else 'refused'}")
+            real = ("ok:" + sdump(dump1, pr[1])) if pr[0] == "ok" else pr[0]
+            inp = {"mutation": name, "data": d}
+            ask(f"cb1_parse {hexs(d)}", lambda a, real=real, inp=inp: s.compare(inp, real, a, "CertBlockV1.parse differs from the model on arbitrary bytes"))
+            if pr[0] != "ok":
+                continue
+            cnt, ctl = u32(d, 24), u32(d, 28)
+            off = 32
+            for _i in range(cnt):
+                off += 4 + u32(d, off)
+            L = off - 32
+            ex2 = pyres(pr[1].export)
+            if cnt == 0:
+                s.expect(ex2[0] == "E:spsdk", inp, "a parsed certificate block v1 without certificates is exported (documented: parse accepts, export refuses)", ex2[0])
+                continue
+            n = 32 + L + 128
+            canon_b = d[:28] + struct.pack("<I", L) + d[32:n] + bytes(-n % 16)
+            s.expect(ex2 == ("ok", canon_b), inp, "re-export of an accepted certificate block v1 is not the canonical form of the parsed bytes "
+                     "(header with the table length of the entries read | entries | RKH table | zero padding)", canon(ex2), canon_b.hex())
+            if ctl == L:
+                s.expect(canon_b[:n] == d[:n], inp, "canonical form differs from the input although the length field was consistent")
+            pr2 = pyres(CertBlockV1.parse, canon_b + junk)
+            s.expect(pr2[0] == "ok" and sdump(dump1, pr2[1]) == sdump(dump1, pr[1]), inp, "parsing the canonical form does not give the same block", pr2[0])
+            if real.startswith("ok:"):
+                f = real[3:].split(" ")
+                ask(f"cb1_export 1 {f[0]} {f[1]} {f[2]} {f[3]} {f[4]} {f[5]} {f[6]} {f[7]}",
+                    lambda a, inp=inp, canon_b=canon_b: s.compare(inp, hx(canon_b), a, "model: export of the parsed block is not the canonical form"))
+    ask.flush()
+    # ---- lite ISK certificate
+    p256 = pool[("ecc", 256)] + pool[("ecc_lz", 256)][:6]
+    for ci in range(ck.budget(10, 80)):
+        isk, signer = rng.choice(p256), rng.choice(pool[("ecc", 256)])
+        cbr = pyres(lambda: CertBlockVx(isk_cert=isk.raw_nxp(), signature_provider=PlainFileSP(signer.file("priv_pem", scratch)), self_signed=bool(ci % 2)).export())
+        if cbr[0] != "ok":
+            s.expect(False, kdesc([signer], isk=isk.desc()), "CertBlockVx cannot be built / exported", cbr)
+            continue
+        data = cbr[1]
+        junk = bytes(rng.getrandbits(8) for _ in range(rng.randrange(0, 20)))
+        muts = [("intact", data + junk), ("magic", struct.pack("<HH", rng.getrandbits(16), rng.getrandbits(16)) + data[4:] + junk),
+                ("constraints", data[:4] + struct.pack("<I", rng.getrandbits(32)) + data[8:]),
+                ("signature", data[:72] + bytes(rng.getrandbits(8) for _ in range(64)) + junk),
+                ("zeros-head", bytes(8) + data[8:]), ("trunc", data[:rng.choice([0, 3, 7, 8, 71, 72, 100, 135])])]
+        for name, d in muts:
+            pr = pyres(IskCertificateLite.parse, d)
+            s.note(("lite", isk.id, signer.id, name), cls=f"lite-{name}-{'accepted' if pr[0] == 'ok' else 'refused'}")
+            inp = {"mutation": name, "data": d}
+            real = canon(pr, lambda i: f"{i.constraints} {hexs(i.isk_public_key_data)} {hexs(i.signature)}")
+            # the model takes "the key bytes are a P-256 point" as a parameter (pointOk); evaluate it here with `cryptography` on input[8:72]
+            pk = d[8:72]
+            def _pt():
+                from cryptography.hazmat.primitives.asymmetric import ec
+                ec.EllipticCurvePublicNumbers(int.from_bytes(pk[:32], "big"), int.from_bytes(pk[32:], "big"), ec.SECP256R1()).public_key()
+                return True
+            point_ok = len(pk) == 64 and pyres(_pt)[0] == "ok"
+            if point_ok:
+                ask(f"lite_parse {hexs(d)}", lambda a, real=real, inp=inp: s.compare(inp, real, a, "IskCertificateLite.parse differs from the model on arbitrary bytes"))
+            else:
+                s.expect(pr[0] != "ok", inp, "a lite ISK certificate whose key bytes are not a P-256 point is accepted", real)
+            if pr[0] != "ok":
+                continue
+            ex2 = pyres(pr[1].export)
+            if len(d) >= 136:
+                want = struct.pack("<HH", 0x4D43, 1) + d[4:136]
+                s.expect(ex2 == ("ok", want), inp, "re-export of an accepted lite ISK certificate is not magic | version | input[4:136]", canon(ex2), want.hex())
+            else:
+                s.expect(ex2[0] != "ok", inp, "a lite ISK certificate parsed from fewer than 136 bytes is exported", canon(ex2))
     return s
 
 
